@@ -78,11 +78,12 @@ CHECKS = {
    ref="DESIGN.md §5 C11",
    note="PARTIAL on numerics: TruncatedSVD, GaussianRandomProjection and numpy.linalg.pinv are parameters whose contracts (orthonormal components, pinv) are validated numerically. Custom works after fix b442c2e."),
  "C12": dict(
-   cat="proof", technique="Lean 4 theorems about exact rational shape predicates (filter in ranking order, in/out partition, closed-shape iffs, strictly-right-of-line, even-odd rule on rectangles) + exact differential with dyadic parameters",
-   text="constraintIndices_mem/_sublist, in_out_partition, circle/cylinder/parabola/ellipse iffs, line_strictly_right, gridPt_spec, polygon_rectangle; all six real shape classes x loc on image grids and dataframes are compared with the model and an "
+   cat="proof", technique="Lean 4 theorems about exact rational shape predicates (filter in ranking order, in/out partition, closed-shape iffs, strictly-right-of-line, even-odd rule on rectangles) + translator regenerating every shape's constraint_function from the source AST into Lean with a kernel-checked equality to the model + exact differential with dyadic parameters",
+   text="harness/translate_shapes.py re-derives on every run, from the current AST of _constraints.py (__init__ attribute definitions inlined), the expression each of the six constraint_function methods evaluates; lake re-checks shape_<Class> (regenerated expression = hand-written model for every parameter, loc, axis and point), "
+        "indices_<Class> / loop_Polygon (lifting through translated_shape_indices / translated_polygon of Props/C12.lean). constraintIndices_mem/_sublist, in_out_partition, circle/cylinder/parabola/ellipse iffs, line_strictly_right, gridPt_spec, polygon_rectangle; all six real shape classes x loc on image grids and dataframes are compared with the model and an "
         "independent exact oracle, boundary points included (Ellipse/Polygon points within 1e-9 of the boundary excluded and counted).",
    ref="DESIGN.md §5 C12",
-   note="Polygon: the even-odd rule as written is the specification (no Jordan-curve argument). Holds after fix 4aaa670 (Cylinder loc='in')."),
+   note="Polygon: the even-odd rule as written is the specification (no Jordan-curve argument); the translator checks its loop skeleton on the AST and proves the edge condition. np.cos/np.sin of the rotation angle are the parameters cos/sin of the model (not modelled). get_constraint_indices' gather/filter and the coordinate look-up are tied by the differential only. Holds after fix 4aaa670 (Cylinder loc='in')."),
  "C13": dict(
    cat="proof", technique="Lean 4 theorems (box set/order via index transposition, half-open dataframe box, ravel/unravel inverse, module name of <identifier>.py for every identifier) + exact differential incl. real temporary files",
    text="box_order, transposeIdx_involutive, box_set, dfBox_mem, ravel_unravel, unravel_ravel, module_name_spec, module_name_old_wrong; the real helpers, UserDefinedConstraints (equation and file) and load_functional_constraints are executed on generated inputs and files.",
